@@ -107,6 +107,17 @@
 // changes the breaker and answers with a boolean or a struct carrying one) and `answer(true)` /
 // permission{granted: true} count as admitting returns.
 //
+// Fourth seeded round: two reviewed reasons became machine-checked. (g) every value reaching
+// ratelimiter.Policy / MultiPolicy.LimitRefreshPeriod is positive on every path (c13_period.go:
+// stores, constructor parameters followed to their call sites, `<= 0 -> default` replacements,
+// ParseDuration of a spec field that Validate parses too, zero from literals that omit the field)
+// -> R-C13-3; (h) every resilience.Wrapper.Wrap returns only nil, a pkg/resilience sentinel or the
+// wrapped handler's error, by value origin (c13_origin.go) -> R-C13-1 on ServerPool.handle's
+// "should not reach here". Also caught: `TimePeriod >= 0`, filter else-default removed, Validate's
+// positive test removed, `return ctx.Err()` inline, `fmt.Errorf("..%w", err)`, ctx.Err() in the
+// circuit breaker wrapper. Silent: both refactorings done correctly (default applied in the multi
+// branch; sleep() returning bool or its error being replaced by the last attempt's error).
+//
 // Genuine defects found on today's tree (demo tests + fixes in /tmp/vw/C13/out): see final report.
 package rules
 
